@@ -618,6 +618,52 @@ func history(tc tcase) {
 			}
 		}
 		wit["admitted_per_live_conn"] = per
+		// A new dial during the probe is a capacity loss only if a live connection REFUSED
+		// although it carried fewer unanswered queries than its limit, i.e. its own admission
+		// counters claim more than the adversary sees on it. A transport that merely chose to
+		// dial while another connection had room (scan order, scan budget) follows a policy
+		// the statement leaves open.
+		leaked := false
+		if pt != nil {
+			_, cs := pt.VerifSnapshot()
+			var st []string
+			for _, x := range cs {
+				st = append(st, fmt.Sprintf("%+v", x))
+				fc, ok := x.NetConn.(*fakenet.Conn)
+				if !ok || !x.HasConn || x.Closed || x.LazyClosed || fc.IsClosed() {
+					continue
+				}
+				b, known := base[fc]
+				if !known {
+					continue // dialed during the probe
+				}
+				if seen := w.distinctOn(fc) - b; x.Reserved+x.Queued > seen {
+					leaked = true
+					wit["leaking_conn"] = fmt.Sprintf("conn %d: counters reserved=%d queued=%d, unanswered queries seen on it: %d", fc.ID, x.Reserved, x.Queued, seen)
+				}
+			}
+			wit["pool_snapshot_after_probe"] = st
+		} else {
+			_, conns, idle, _, _ := rt.VerifSnapshot()
+			if conns != idle+rt.VerifBusy() {
+				leaked = true
+				wit["pool_after_probe"] = fmt.Sprintf("conns=%d idle=%d busy=%d", conns, idle, rt.VerifBusy())
+			}
+		}
+		if !leaked {
+			rep.Count("probe_dialed_although_a_connection_had_room(transport policy, counters agree with the wire: not judged)", 1)
+			for _, pc := range probes {
+				w.release(pc.seq)
+			}
+			for _, pc := range probes {
+				select {
+				case <-pc.done:
+				case <-time.After(10 * time.Second):
+				}
+				pc.cancel()
+			}
+			return
+		}
 		rep.Violation("capacity-lost-after-history-"+tc.Kind, fmt.Sprintf("%d live quiescent connections with limit %d admitted fewer than %d withheld queries: %d new connection(s) were dialed during the probe", live, L, live*L, after-before), wit)
 	} else {
 		for c, b := range base {
